@@ -14,11 +14,15 @@
       with region lists that differ only in how the unnamed gap region was created, and the naming
       pass gives both the same name, type, visibility and doc -- so [resolve_regions] yields the
       same regions.
-    Reordering definitions is decided by the monitor (byte comparison of the real outputs) and, for
-    the resolution part, by C09's order-independence theorem; the emitter's sorting argument is not
-    formalised, hence the property's claim is partial for that rewrite. *)
+    - [C20_reorder_same_output] (ReorderReg.v, ReorderAtt.v, ConfluencePerm.v, Reorder.v): reordering
+      the definitions inside the modules of an input ([reordered]: same modules, each with a
+      permutation of its definitions) that is collision free and clean gives, under ANY two
+      schedules, the same verdict class and -- when accepted -- exactly the same files
+      ([write_all s1 = write_all s2]); the reordered input registers iff the original does
+      ([C20_reorder_registration]). *)
 From Coq Require Import List NArith ZArith Bool String.
-From PyxisModel Require Import Base Grammar SemTypes Registry Sem PlacementLemmas VftableLemmas RewriteLemmas.
+From PyxisModel Require Import Base Grammar SemTypes Registry Sem PlacementLemmas VftableLemmas RewriteLemmas WholeBuild Monotone OrderIndep Emit ReorderReg Reorder.
+From Coq Require Import Permutation.
 Import ListNotations.
 
 Theorem C20_address_explicit : forall R rs last r,
@@ -56,3 +60,22 @@ Theorem C20_naming_ignores_gap_spelling : forall R rs1 rs2 s0,
   Forall2 same_named rs1 rs2 -> name_regions R rs1 s0 = name_regions R rs2 s0.
 Proof. exact name_regions_same_named. Qed.
 Print Assumptions C20_naming_ignores_gap_spelling.
+
+(** ** reordering the definitions of a module *)
+Theorem C20_reorder_same_output : forall ptr mods mods' st0 o1 o2,
+  reordered mods mods' ->
+  input_state ptr mods = Ok st0 ->
+  collision_free (st_reg st0) -> clean_stateb st0 = true ->
+  (forall l, Permutation (o1 l) l) -> (forall l, Permutation (o2 l) l) ->
+  match pyxis_resolve o1 ptr mods, pyxis_resolve o2 ptr mods' with
+  | BOk s1, BOk s2 => write_all s1 = write_all s2
+  | BOk _, _ | _, BOk _ => False
+  | _, _ => True
+  end.
+Proof. exact pyxis_reorder_same_output'. Qed.
+Print Assumptions C20_reorder_same_output.
+
+Theorem C20_reorder_registration : forall ptr mods mods',
+  reordered mods mods' -> is_ok (input_state ptr mods) = is_ok (input_state ptr mods').
+Proof. exact input_state_reordered_ok. Qed.
+Print Assumptions C20_reorder_registration.
